@@ -188,10 +188,42 @@ type connResult struct {
 //	te=1            ctx.TimeoutError("timed out!") then keep mutating
 //	uv=1            set a user value (must not be visible to the next request)
 func runConn(cfg connCfg, chunks [][]byte) *connResult {
-	tr := &connTrace{}
-	res := &connResult{Trace: tr}
-	conn := &scriptConn{t: tr, chunks: chunks, atEOF: cfg.AtEOF}
-	var hjWG sync.WaitGroup
+	return newConnServer(cfg).run(chunks)
+}
+
+// connServer is one fasthttp.Server that can serve several scripted connections one after the other
+// (so that they share the server's ctx pool).
+type connServer struct {
+	cfg  connCfg
+	s    *fasthttp.Server
+	tr   *connTrace
+	res  *connResult
+	conn *scriptConn
+	hjWG sync.WaitGroup
+	// extra is called at the end of the scripted handler (property-specific observations / mutations)
+	extra func(ctx *fasthttp.RequestCtx, d *dispatchRec)
+}
+
+func (cs *connServer) run(chunks [][]byte) *connResult {
+	cs.tr = &connTrace{}
+	cs.res = &connResult{Trace: cs.tr}
+	cs.conn = &scriptConn{t: cs.tr, chunks: chunks, atEOF: cs.cfg.AtEOF}
+	tr, res, conn := cs.tr, cs.res, cs.conn
+	func() {
+		defer func() {
+			if e := recover(); e != nil {
+				tr.add(connEvent{Kind: "panic", S: fmt.Sprint(e)})
+			}
+		}()
+		res.ServeErr = cs.s.ServeConn(conn)
+	}()
+	waitTimeout(&cs.hjWG, 2*time.Second)
+	res.Consumed = conn.consumed
+	return res
+}
+
+func newConnServer(cfg connCfg) *connServer {
+	cs := &connServer{cfg: cfg}
 	s := &fasthttp.Server{
 		ReduceMemoryUsage:             cfg.ReduceMem,
 		DisableHeaderNamesNormalizing: cfg.DisableNorm,
@@ -207,9 +239,10 @@ func runConn(cfg connCfg, chunks [][]byte) *connResult {
 		NoDefaultDate:                 true,
 		NoDefaultServerHeader:         true,
 		ConnState: func(c net.Conn, st fasthttp.ConnState) {
-			tr.add(connEvent{Kind: "state", S: st.String(), N: conn.consumed})
+			cs.tr.add(connEvent{Kind: "state", S: st.String(), N: cs.conn.consumed})
 		},
 	}
+	cs.s = s
 	switch cfg.Continue {
 	case "accept":
 		s.ContinueHandler = func(*fasthttp.RequestHeader) bool { return true }
@@ -221,6 +254,8 @@ func runConn(cfg connCfg, chunks [][]byte) *connResult {
 		s.ExpectHandler = func(*fasthttp.RequestCtx) int { return fasthttp.StatusContinue }
 	}
 	s.Handler = func(ctx *fasthttp.RequestCtx) {
+		tr, res := cs.tr, cs.res
+		hjWG := &cs.hjWG
 		var d dispatchRec
 		d.Method = append([]byte(nil), ctx.Method()...)
 		d.URI = append([]byte(nil), ctx.RequestURI()...)
@@ -299,20 +334,13 @@ func runConn(cfg connCfg, chunks [][]byte) *connResult {
 			ctx.Response.SetBodyString("LATE")
 			ctx.Response.Header.Set("X-Late", "1")
 		}
+		if cs.extra != nil {
+			cs.extra(ctx, &d)
+		}
 		res.Dispatches = append(res.Dispatches, d)
 		tr.add(connEvent{Kind: "dispatch", N: len(res.Dispatches) - 1})
 	}
-	func() {
-		defer func() {
-			if e := recover(); e != nil {
-				tr.add(connEvent{Kind: "panic", S: fmt.Sprint(e)})
-			}
-		}()
-		res.ServeErr = s.ServeConn(conn)
-	}()
-	waitTimeout(&hjWG, 2*time.Second)
-	res.Consumed = conn.consumed
-	return res
+	return cs
 }
 
 func waitTimeout(wg *sync.WaitGroup, d time.Duration) bool {
